@@ -300,18 +300,32 @@ def ext(t, body):
     return struct.pack("!HH", t, len(body)) + body
 
 
-def _frag(msgs, bits, n):
+def _frag(msgs, bits, n, cuts=None):
     """n > 0: the flight is one byte stream cut into records of at most n bytes (RFC 5246 6.2.1 / RFC 8446 5.1: a handshake message may
-    be fragmented across several records, and a record may hold the end of one message and the start of the next); else _group"""
-    if not n:
+    be fragmented across several records, and a record may hold the end of one message and the start of the next); cuts: additional record
+    boundaries [[message index, j], ...] j bytes into (the header of) that message; neither: _group.  A leading ServerHello stays whole."""
+    if not n and not cuts:
         return _group(msgs, bits)
     data = b"".join(m for _, m in msgs)
     starts, off = [], 0
     for t, m in msgs:
         starts.append((off, t))
         off += len(m)
+    keep = len(msgs[0][1]) if msgs and msgs[0][0] == "SH" else 0
+    bounds = set(range(n, len(data), n)) if n else set()
+    for mi, j in cuts or []:
+        bounds.add(starts[mi % len(starts)][0] + j)
+    bounds = sorted(b for b in bounds if keep <= b < len(data) and b > 0)
+    # no record longer than 2^14 bytes
+    edges = [0] + bounds + [len(data)]
+    full = [0]
+    for e in edges[1:]:
+        while e - full[-1] > 16384:
+            full.append(full[-1] + 16384)
+        if e > full[-1]:
+            full.append(e)
     # a record is tagged with the messages that start in it ("FRAG" if it only continues one)
-    return [("+".join(t for o, t in starts if i <= o < i + n) or "FRAG", data[i:i + n]) for i in range(0, len(data), n)]
+    return [("+".join(t for o, t in starts if a <= o < b) or "FRAG", data[a:b]) for a, b in zip(full, full[1:])]
 
 
 def _group(msgs, bits):
@@ -335,6 +349,8 @@ DEFAULT_TLS_SPEC = dict(
     hs_secrets=True, ccs13=True, pad13=0, tickets=0, cert_len=300, ske=False,
     history=[[0, 20, 0], [1, 40, 0]],   # [dir (0 client, 1 server), plaintext length, padding amount]
     sh13_exts=0,           # order / presence of supported_versions, key_share, pre_shared_key in a TLS 1.3 ServerHello (0..4)
+    share_master=0,        # != 0: the master secret is derived from this value (TLS <= 1.2 connections resumed from one session share it)
+    hs_cuts=None,          # [[message index, j], ...] extra record boundaries j bytes into a message of the flight (0..4: around / inside its header)
     client_auth=False,     # CertificateRequest in the server's flight; Certificate / CertificateVerify in the client's
     half_rtt=None,         # [[len, pad], ...] TLS 1.3: server application records right after the server Finished, before the client's (0.5-RTT)
     false_start=None,      # [[len, pad], ...] client application records sent right after the client Finished (full handshake, <= TLS 1.2)
@@ -460,6 +476,10 @@ class TlsConn:
     def _legacy(self, sh, rv):
         rnd, v, s, sp = self.rnd, self.v, self.s, self.spec
         master = rbytes(rnd, 48)
+        if sp.get("share_master"):
+            # session resumption: connections resumed from the same session have the same master secret (and their own randoms)
+            import random as _random
+            master = _random.Random(sp["share_master"]).randbytes(48)
         self.master = master
         self.keylog.append(f"CLIENT_RANDOM {self.cr.hex()} {master.hex()}")
         kb = key_block(v, s, master, self.cr, self.sr)
@@ -491,12 +511,12 @@ class TlsConn:
             if sp.get("client_auth"):
                 msgs.append(("CR", hs(13, rbytes(rnd, 24))))
             msgs.append(("SHD", hs(14, b"")))
-            for t, m in _frag(msgs, g, sp.get("hs_frag", 0)):
+            for t, m in _frag(msgs, g, sp.get("hs_frag", 0), sp.get("hs_cuts")):
                 self._plain(True, 0x16, m, rv, t)
             if sp.get("client_auth"):
                 # client authentication: Certificate, ClientKeyExchange, CertificateVerify - grouped / fragmented like the server's flight
                 cmsgs = [("CCERT", hs(11, rbytes(rnd, max(10, sp["cert_len"] // 2)))), ("CKE", hs(16, rbytes(rnd, 130))), ("CCV", hs(15, rbytes(rnd, 70)))]
-                for t, m in _frag(cmsgs, g >> 2, sp.get("hs_frag", 0)):
+                for t, m in _frag(cmsgs, g >> 2, sp.get("hs_frag", 0), sp.get("hs_cuts")):
                     self._plain(False, 0x16, m, rv, t)
             else:
                 self._plain(False, 0x16, hs(16, rbytes(rnd, 130)), rv, "CKE")
@@ -531,7 +551,7 @@ class TlsConn:
         self.w = {False: cw, True: sw}
         msgs = [("EE", hs(8, b"\x00\x00"))] + ([("CR", hs(13, rbytes(rnd, 24)))] if sp.get("client_auth") else []) + \
             [("CERT", hs(11, rbytes(rnd, sp["cert_len"]))), ("CV", hs(15, rbytes(rnd, 70))), ("FIN", hs(20, rbytes(rnd, hl)))]
-        for t, m in _frag(msgs, self.grouping, sp.get("hs_frag", 0)):
+        for t, m in _frag(msgs, self.grouping, sp.get("hs_frag", 0), sp.get("hs_cuts")):
             self._enc(True, sw.protect(0x16, m, self.pad13), t)
         sw.set_secret(sec["sap"])
         for ln, pad in sp.get("half_rtt") or []:
@@ -542,7 +562,7 @@ class TlsConn:
         cmsgs = [("FIN", hs(20, rbytes(rnd, hl)))]
         if sp.get("client_auth"):
             cmsgs = [("CCERT", hs(11, rbytes(rnd, max(10, sp["cert_len"] // 2)))), ("CCV", hs(15, rbytes(rnd, 70)))] + cmsgs
-        for t, m in _frag(cmsgs, self.grouping >> 2, sp.get("hs_frag", 0)):
+        for t, m in _frag(cmsgs, self.grouping >> 2, sp.get("hs_frag", 0), sp.get("hs_cuts")):
             self._enc(False, cw.protect(0x16, m, self.pad13), t)
         cw.set_secret(sec["cap"])
 
